@@ -6,5 +6,6 @@ CONSTANTS
   BugKeepOnFlush = FALSE
   TrackerMutex = TRUE
   Prog <- P4
+  Post <- Probe2
 INVARIANTS Linearizable NoLostWakeup
 PROPERTIES Terminates
